@@ -4,6 +4,7 @@ CONSTANTS
   MaxLen = 7
   Blocks <- NoBlocks
   MaxBlocks = 0
+  BlockAfter = 3
   Dump = TRUE
 INVARIANT AutomatonConsistent
 INVARIANT StrToNumberOK
